@@ -4,6 +4,7 @@ import DustVerif.Driver.Match
 import DustVerif.Driver.Wire
 import DustVerif.Driver.Tree
 import DustVerif.Driver.GenIdl
+import DustVerif.Driver.Plist
 open DustVerif.Driver
 
 partial def loopStateless (h : IO.FS.Stream) (out : IO.FS.Stream) (f : String → String) : IO Unit := do
@@ -29,5 +30,6 @@ def main (args : List String) : IO UInt32 := do
   | ["match"] => loopStateless stdin stdout MatchEngine.step; return 0
   | ["tree"] => loopStateful stdin stdout TreeEngine.step TreeEngine.defaultSt; return 0
   | ["gen"] => loopStateless stdin stdout GenEngine.step; return 0
+  | ["plist"] => loopStateless stdin stdout PlistEngine.step; return 0
   | ["hist"] => loopStateful stdin stdout HistEngine.step HistEngine.defaultSt; return 0
   | _ => IO.eprintln "usage: dustmodel <engine>"; return 2
